@@ -227,12 +227,41 @@ pub fn oracle_filtered(p: &HttpPlan, o: &HttpOutcome, skip: &dyn Fn(usize, usize
     v
 }
 
+/// C01 plans: the H1/H1 scenario, or the mixed-protocol scenario (H2-over-TLS client and/or h2c backend).
+#[derive(Clone, Debug, serde::Serialize, serde::Deserialize)]
+pub enum Plan {
+    H1(HttpPlan),
+    Mux(crate::muxscn::MuxPlan),
+}
+
+fn run_mux_plan(p: &crate::muxscn::MuxPlan) -> RunReport {
+    use super::c14;
+    let o = crate::muxscn::run_mux(p, false);
+    let violations = c14::body_oracle(p, &o);
+    let mut rep = RunReport { seed: p.seed, family: p.family.clone(), violations, trace_hash: o.trace_hash, stats: o.stats.clone(), summary: c14::summarize(p), ..Default::default() };
+    c14::mux_probes(&o, &mut rep);
+    let done = o.h2_clients.iter().map(|r| r.streams.values().filter(|s| s.recv_end).count()).sum::<usize>() + o.h1_clients.iter().map(|c| c.responses.len()).sum::<usize>();
+    rep.nontrivial = done > 0;
+    rep.probes.insert("responses_completed".into(), done as u64);
+    if let Some(e) = o.boot_error { rep.harness_error = Some(format!("worker boot failed: {e}")); }
+    if !o.config_failures.is_empty() { rep.harness_error = Some(format!("configuration refused: {:?}", o.config_failures)); }
+    rep
+}
+
 impl Property for C01 {
     fn id(&self) -> &'static str { "C01" }
-    fn runs(&self, tier: Tier) -> u64 { match tier { Tier::Quick => 3000, Tier::Thorough => 60000 } }
-    fn gen_plan(&self, seed: u64, tier: Tier) -> Value { serde_json::to_value(generate(seed, tier)).unwrap() }
+    fn runs(&self, tier: Tier) -> u64 { match tier { Tier::Quick => 12000, Tier::Thorough => 200000 } }
+    fn gen_plan(&self, seed: u64, tier: Tier) -> Value {
+        // two thirds H1/H1 (cheap, 700 runs/s), one third the pairs that involve HTTP/2 and TLS
+        if Prng::derive(seed, "c01/kind").below(3) < 2 { serde_json::to_value(Plan::H1(generate(seed, tier))).unwrap() }
+        else { serde_json::to_value(Plan::Mux(super::c14::gen_mux(seed, tier, super::c14::Focus::Bodies, "c01"))).unwrap() }
+    }
     fn run_plan(&self, plan: &Value) -> RunReport {
-        let p: HttpPlan = match serde_json::from_value(plan.clone()) { Ok(p) => p, Err(e) => return RunReport { harness_error: Some(format!("bad plan: {e}")), ..Default::default() } };
+        let p: HttpPlan = match serde_json::from_value::<Plan>(plan.clone()) {
+            Ok(Plan::H1(p)) => p,
+            Ok(Plan::Mux(m)) => return run_mux_plan(&m),
+            Err(e) => return RunReport { harness_error: Some(format!("bad plan: {e}")), ..Default::default() },
+        };
         let o = run_http(&p, false);
         let violations = oracle(&p, &o);
         let mut rep = RunReport { seed: p.seed, family: p.family.clone(), violations, trace_hash: o.trace_hash, stats: o.stats.clone(), summary: summarize(&p), ..Default::default() };
@@ -245,18 +274,27 @@ impl Property for C01 {
         rep
     }
     fn shrink(&self, plan: &Value) -> Vec<Value> {
-        let Ok(p) = serde_json::from_value::<HttpPlan>(plan.clone()) else { return vec![] };
-        shrink_http(&p).into_iter().map(|p| serde_json::to_value(p).unwrap()).collect()
+        match serde_json::from_value::<Plan>(plan.clone()) {
+            Ok(Plan::H1(p)) => shrink_http(&p).into_iter().map(|p| serde_json::to_value(Plan::H1(p)).unwrap()).collect(),
+            Ok(Plan::Mux(m)) => super::c14::shrink_mux(&m).into_iter().map(|q| serde_json::to_value(Plan::Mux(q)).unwrap()).collect(),
+            Err(_) => vec![],
+        }
     }
-    fn debug_plan(&self, plan: &Value) -> String { debug_http(plan) }
+    fn debug_plan(&self, plan: &Value) -> String {
+        match serde_json::from_value::<Plan>(plan.clone()) {
+            Ok(Plan::H1(p)) => debug_http(&serde_json::to_value(p).unwrap()),
+            Ok(Plan::Mux(m)) => super::c14::debug_mux(&m),
+            Err(e) => e.to_string(),
+        }
+    }
     fn descr(&self) -> Descr {
         Descr {
             level: "exploration",
             rule: "seeded plans (topology, request/response framings and boundary-biased sizes, peer pacing, socket buffer sizes, epoll truncation/permutation, preemption points, injected short writes/EAGAIN); a run is non-trivial when >=1 response completed end-to-end; distinct = distinct syscall/decision trace hashes",
             assumptions: vec!["AF_UNIX stream sockets stand in for TCP (no RST-discards-data, no Nagle)", "release semantics (debug assertions off)", "x86-64 Linux"],
-            real: vec!["sozu_lib::server::Server::run (whole worker: mux H1, kawa, buffer pool, timers, backends, router)", "sozu_command_lib Channel/ConfigState", "mio", "Linux epoll + AF_UNIX"],
+            real: vec!["sozu_lib::server::Server::run (whole worker: mux H1 and H2, kawa, converter, rustls+ring TLS termination, buffer pool, timers, backends, router)", "sozu_command_lib Channel/ConfigState", "mio", "Linux epoll + AF_UNIX"],
             stub: vec!["IP network (AF_UNIX pairs + address translation)", "clock", "entropy", "clients", "backends", "master process (scripted stub)"],
-            not_covered: vec!["HTTP/2 and TLS pairs (see H2 families when present)"],
+            not_covered: vec!["HTTP/1.1 over TLS clients (H2-over-TLS and plain H1 clients are covered)", "bodies above 2 MB"],
         }
     }
 }
